@@ -2,10 +2,14 @@
     of the scanner and (2) the writer's replay of the stored offsets.  Proved here: the scanner is total and its token
     lines never decrease (so the parser's u32 line differences are well defined), the writer's whitespace for an
     offset n>0 contains exactly n line breaks, and every shipped stringify writes each field with its own location.
-    The whole-document statement is tied by the correspondence run and evaluated by the oracle. *)
+    And the parser's side for whole elements: every offset the parser stores is the line of its token minus the line of the
+    token in front of it (C05_stored_offsets_are_line_differences).  The writer's composition over a whole document is tied
+    by the correspondence run and evaluated by the oracle. *)
 From Coq Require Import Ascii String List Bool NArith ZArith.
-From A2L Require Import Base.Res Text.Escape Lex.Tokenizer Gram.Spec Gram.Writer Gram.WriterTable Gen.SpecShipped Gen.WriterShipped
-     Proofs.TokenizerProofs Proofs.GrammarObligations Proofs.LayoutProofs.
+From A2L Require Import Base.Res Text.Escape Lex.Tokenizer Gram.Spec A2ml.Types Gram.PState Gram.Parser Gram.Writer Gram.TokWriter
+     Gram.WriterTable Gen.SpecShipped Gen.WriterShipped
+     Proofs.TokenizerProofs Proofs.GrammarObligations Proofs.LayoutProofs Proofs.LexUnitsProofs Proofs.WriterUnitsProofs Proofs.CursorProofs Proofs.LineOffsetProofs
+     Proofs.ParseTraceProofs Proofs.LinePreservationProofs.
 Import ListNotations.
 Local Open Scope N_scope.
 
@@ -24,3 +28,121 @@ Print Assumptions C05_whitespace_replays_offset.
 Theorem C05_each_field_written_with_its_own_location : writer_consistent spec_shipped writer_shipped = true.
 Proof. exact writer_is_consistent. Qed.
 Print Assumptions C05_each_field_written_with_its_own_location.
+
+
+(** The parser's side, for every grammar that meets spec_ok, every element type and nesting depth: after a clean run the
+    offsets in the value - the ones the writer replays: per field, l_so in front of /begin or the keyword, l_eo in front of
+    /end - are, token by token, the line of the token minus the line of the token in front of it (minus the line of the last
+    token taken before the element for its first token).  [lines_as prev ts offs] walks the consumed tokens ts and the
+    offsets offs = woffs v in step; an entry None marks a token that the writer puts directly behind its predecessor (the
+    tag behind /begin and /end, a string of bounded length).  Conditions as for C02_load_then_write_keeps_every_token, and
+    the element is not the last thing in the file. *)
+Theorem C05_stored_offsets_are_line_differences : forall S posrs ftab ifuel, spec_ok S = true ->
+  forall f td c off s v s', c_fileid c = O -> Inv s -> first_ok s -> ps_ftab s = ftab ->
+    lookup_ty S (t_name td) = Some td -> t_special td = None ->
+    parse_ty f S ifuel td c off s = (ROk v, s') -> ps_log s' = ps_log s -> good S posrs f td v ->
+    ps_after s' <> [] ->
+    exists ts, adv ts s s' /\ lines_as (prevl s) ts (woffs S posrs f v ++ closing_offs (is_blockb td) v) /\
+               l_so (layout_of v) = off.
+Proof.
+  intros S posrs ftab ifuel Hs f td c off s v s' H1 H2 H3 H4 H5 H6 H7 H8 H9 Hne.
+  destruct (parse_then_write S posrs ftab ifuel Hs f td c off s v s' H1 H2 H3 H4 H5 H6 H7 H8 H9) as (ts & A & _ & Hn & Ln).
+  exists ts. split; [exact A|]. split; [exact (Ln Hne)|]. destruct Hn as (lay & fs & ks & -> & _ & _ & Hso). exact Hso.
+Qed.
+Print Assumptions C05_stored_offsets_are_line_differences.
+
+(* what the offset is: the line of the token just taken minus the line of the token before it *)
+Theorem C05_offset_behind_a_token : forall s cur b, Inv s -> first_ok s -> ps_before s = cur :: b -> ps_after s <> [] ->
+  get_line_offset s = (ROk (tk_line cur - line_of b), s).
+Proof. exact glo_value. Qed.
+Print Assumptions C05_offset_behind_a_token.
+
+(* the statement evaluated on a MEASUREMENT body that is spread over several lines (and followed by a further token) *)
+Fixpoint lines_asb (prev : N) (ts : list token) (offs : list (option N)) : bool :=
+  match ts, offs with
+  | [], [] => true
+  | t :: r, o :: q => match o with Some off => (off =? tk_line t - prev) | None => true end && lines_asb (tk_line t) r q
+  | _, _ => false
+  end.
+Definition lf1 : string := String (Ascii.ascii_of_nat 10) EmptyString.
+Definition demo_lines_body : string :=
+  lf1 ++ lf1 ++ "speed ""x""" ++ lf1 ++ "  UWORD cm 1 0.5 0x0 0xFFFF" ++ lf1 ++ lf1 ++ "  ECU_ADDRESS 0x4000" ++ lf1 ++
+  "  /begin ANNOTATION" ++ lf1 ++ "    ANNOTATION_LABEL ""l"" /end ANNOTATION BIT_MASK" ++ lf1 ++ "255" ++ lf1 ++ "/end MEASUREMENT next".
+Definition demo_lines_ftab : list fentry :=
+  [mkFe (list_ascii_of_string "0.5") true 0x3FE0000000000000 (list_ascii_of_string "0.5") (list_ascii_of_string "5e-1") true 0x3FE0000000000000 (list_ascii_of_string "0.5") (list_ascii_of_string "5e-1")].
+Definition demo_lines_check : option (bool * nat * nat) :=
+  match tokenize_core 0 (list_ascii_of_string demo_lines_body), lookup_ty spec_shipped "Measurement" with
+  | TOk toks, Some td =>
+      match parse_ty 6 spec_shipped 6 td (mkCtx (list_ascii_of_string "MEASUREMENT") O 1) 0 (init_state toks false 1 demo_lines_ftab) with
+      | (ROk v, s') =>
+          let consumed := firstn (length toks - length (ps_after s')) toks in
+          Some (lines_asb 1 consumed (woffs spec_shipped posr_shipped 6 v ++ closing_offs (is_blockb td) v),
+                length consumed, length (ps_after s'))
+      | _ => None
+      end
+  | _, _ => None
+  end.
+Example C05_offsets_example : demo_lines_check = Some (true, 20%nat, 1%nat).
+Proof. vm_compute. reflexivity. Qed.
+
+
+(** The whole chain for an element: parse it, write the value, tokenize the written text.  The i-th token of the written
+    text is the i-th token that was read, and it stands on the same line relative to the start: (line in the written text)
+    - 1 = (line in the input) - (line of the token in front of the element).  Conditions: those of the load -> write theorem
+    (C02), those of the write -> load theorem for the writer's side ([confb], well-formed token texts), the element is not
+    the last thing in the file, and [inline]: the tag behind every /begin and /end of a child stands on the line of that
+    /begin or /end (the property's layout class). *)
+Theorem C05_element_lines_preserved : forall S posrs ftab names ifuel, spec_ok S = true ->
+  forall f td c off s v s' nxt indent,
+    c_fileid c = O -> Inv s -> first_ok s -> ps_ftab s = ftab ->
+    lookup_ty S (t_name td) = Some td -> t_special td = None ->
+    parse_ty f S ifuel td c off s = (ROk v, s') -> ps_log s' = ps_log s -> good S posrs f td v -> ps_after s' <> [] ->
+    confb S posrs ftab f td v nxt = true -> Forall token_text (wtoks S posrs ftab f v) ->
+    exists ts toks',
+      adv ts s s' /\
+      tokenize_core 0 (write_node S posrs ftab names f v indent) = TOk toks' /\
+      map shape_of toks' = wtoks S posrs ftab f v /\
+      (inline (prevl s) ts (woffs S posrs f v ++ closing_offs (is_blockb td) v) ->
+       Forall2 (fun t' t => tk_line t' + prevl s = tk_line t + 1) toks' (firstn (length toks') ts)).
+Proof. exact element_lines_preserved. Qed.
+Print Assumptions C05_element_lines_preserved.
+
+(* the writer's side alone: the lines of the tokens of a written value are the running sums of its offsets *)
+Theorem C05_written_lines : forall S posrs ftab names f td v nxt indent,
+  confb S posrs ftab f td v nxt = true -> Forall token_text (wtoks S posrs ftab f v) ->
+  exists toks, tokenize_core 0 (write_node S posrs ftab names f v indent) = TOk toks /\
+               map shape_of toks = wtoks S posrs ftab f v /\
+               map tk_line toks = cums 1 (map offv (woffs S posrs f v)).
+Proof. exact written_lines. Qed.
+Print Assumptions C05_written_lines.
+
+(* the premises of the chain are met, and the conclusion evaluates to true, on a MEASUREMENT body over several lines *)
+Fixpoint inlineb (prev : N) (ts : list token) (offs : list (option N)) : bool :=
+  match ts, offs with
+  | t :: r, o :: q => match o with None => (tk_line t =? prev) | Some _ => true end && inlineb (tk_line t) r q
+  | _, _ => true
+  end.
+Definition demo_chain_body : string :=
+  lf1 ++ lf1 ++ "speed ""x""" ++ lf1 ++ "  UWORD cm 1 0.5 0.5 0.5" ++ lf1 ++ lf1 ++ "  ECU_ADDRESS 0x4000" ++ lf1 ++
+  "  /begin ANNOTATION" ++ lf1 ++ "    ANNOTATION_LABEL ""l"" /end ANNOTATION BIT_MASK" ++ lf1 ++ "255" ++ lf1 ++ "/end MEASUREMENT next".
+Definition demo_chain_check : option (bool * bool * bool * bool * bool) :=
+  match tokenize_core 0 (list_ascii_of_string demo_chain_body), lookup_ty spec_shipped "Measurement" with
+  | TOk toks, Some td =>
+      match parse_ty 6 spec_shipped 6 td (mkCtx (list_ascii_of_string "MEASUREMENT") O 1) 0 (init_state toks false 1 demo_lines_ftab) with
+      | (ROk v, s') =>
+          let consumed := firstn (length toks - length (ps_after s')) toks in
+          match tokenize_core 0 (write_node spec_shipped posr_shipped demo_lines_ftab [[]] 6 v 1) with
+          | TOk toks' =>
+              Some (confb spec_shipped posr_shipped demo_lines_ftab 6 td v None,
+                    forallb token_textb (wtoks spec_shipped posr_shipped demo_lines_ftab 6 v),
+                    goodb spec_shipped posr_shipped 6 td v,
+                    inlineb 1 consumed (woffs spec_shipped posr_shipped 6 v ++ closing_offs (is_blockb td) v),
+                    list_eqb N.eqb (map (fun t => tk_line t + 1) toks') (map (fun t => tk_line t + 1) (firstn (length toks') consumed)))
+          | _ => None
+          end
+      | _ => None
+      end
+  | _, _ => None
+  end.
+Example C05_chain_example : demo_chain_check = Some (true, true, true, true, true).
+Proof. vm_compute. reflexivity. Qed.
